@@ -29,10 +29,11 @@ from qiskit_addon_cutting.wire_cutting_transforms import cut_wires, _transform_c
 from qiskit_addon_cutting import partition_problem, generate_cutting_experiments, reconstruct_expectation_values
 from qiskit_addon_cutting.utils.simulation import ExactSampler
 
-from common import CaseWriter, Res, Raw, Interner, call_canon
+from common import CaseWriter, Res, Raw, Interner, call_canon, Qc
 from circ import CircCtx, coq_circ
 
-IMPORTS = ("From CKT Require Import Common.Base Common.Circ Model.Observables Model.CutWires Corr.C03Corr.")
+IMPORTS = ("From Coq Require Import QArith.\nClose Scope Q_scope.\n"
+           "From CKT Require Import Common.Base Common.Circ Model.Observables Model.CutWires Corr.C03Corr.")
 FUNCS = {"cut_wires": cut_wires, "moves": _transform_cuts_to_moves}
 
 GATES = {
@@ -222,6 +223,16 @@ def run_case(prog, fn, paulis):
     return case, cn
 
 
+def uncut_values(case):
+    """<P> of the input circuit with markers ignored, by the independent simulator; None if not simulable"""
+    cin = case["input"]
+    o1 = _ops_from_canon(cin["data"])
+    if o1 is None or case.get("paulis") is None:
+        return None
+    b1 = simulate(len(cin["qubits"]), cin["nc"], o1)
+    return [complex(sum(e for _, e in pauli_stats(b1, ph, lets).values())).real for ph, lets in case["paulis"]]
+
+
 def pack(case):
     """Stored form of a case: the re-executable input in clear, the recorded canonical data as one JSON string
     (json.dump of deeply nested lists is the dominant cost of the harness otherwise)."""
@@ -245,6 +256,15 @@ def emit(w, stream, case, cn, nontrivial, with_expand=True):
           (cn.factory(case["fn"]), len(cin["qubits"]), cin["nc"], coq_regs(cin["qregs"]), coq_regs(cin["cregs"]),
            coq_circ(cin["data"]), exp),
           pack(case), nontrivial=nontrivial)
+    if "e2e" in case:
+        e2 = case["e2e"]
+        un = uncut_values(case)
+        if e2[0] == "ok" and un is not None and len(un) == len(e2[1]["values"]):
+            val = Res("ok", [(Qc(v), Qc(u)) for v, u in zip(e2[1]["values"], un)])
+        else:
+            val = Res(e2[0] if e2[0] != "ok" else "crashed")
+        w.add(f"{stream}.reconstruct", "chk_e2e", val, pack(dict(case, kind="reconstruct")), nontrivial=nontrivial,
+              key=json.dumps(case["prog"]))
     if with_expand and case.get("paulis") is not None and case.get("expanded") is not None:
         e = case["expanded"]
         eexp = Res("ok", [coq_pauli(c) for c in e[1]]) if e[0] == "ok" else Res(e[0])
@@ -565,7 +585,8 @@ def agrees_with_reference(case):
 def generate(rng, tier, outdir):
     w = CaseWriter(outdir, IMPORTS, case_types={
         "chk_cut": "op * nat * nat * regs * regs * circ * res cut_result",
-        "chk_cut_expand": "nat * circ * list pauli * res (list pauli)"})
+        "chk_cut_expand": "nat * circ * list pauli * res (list pauli)",
+        "chk_e2e": "res (list (Q * Q))"})
     quick = tier == "quick"
     w.SHARD = 300 if quick else 1500
     maxlen, maxlen6 = (5, 3) if quick else (6, 5)
@@ -674,6 +695,13 @@ def generate(rng, tier, outdir):
         dict(qspec=[["reg", "a", 1], ["reg", "b", 1]], cspec=[], e2e=True,
              instrs=[["ry", [0.7], [0], []], cut(0), ["cx", [], [0, 1], []], cut(1), ["ry", [0.4], [1], []], cut(0), ["rx", [1.1], [0], []],
                      ["cx", [], [1, 0], []]]),
+        # three partitions, markers on different qubits after a joint entangling gate, HIGHER qubit's marker first
+        dict(qspec=[["reg", "a", 2]], cspec=[], e2e=True,
+             instrs=[["ry", [0.7], [0], []], ["ry", [1.2], [1], []], ["cx", [], [0, 1], []], cut(1), cut(0), ["rx", [0.5], [0], []],
+                     ["rx", [0.9], [1], []]]),
+        dict(qspec=[["loose", 3]], cspec=[], e2e=True,
+             instrs=[["ry", [0.7], [0], []], ["ry", [1.2], [1], []], ["ry", [0.3], [2], []], ["crx", [0.9], [2, 0], []], ["cx", [], [0, 1], []],
+                     cut(2), cut(0), ["rx", [0.5], [0], []], ["cx", [], [2, 1], []]]),
         # marker first on its wire and first instruction; marker last on its wire
         dict(qspec=[["loose", 2]], cspec=[], e2e=True,
              instrs=[cut(0), ["ry", [0.7], [0], []], ["ry", [1.2], [1], []], ["crx", [0.9], [1, 0], []], cut(1)]),
